@@ -197,8 +197,9 @@ def check_index(w: World, slot_idx: int, probe_dids=(), probe_data=()):
             if len(exp) != 1 or one is not exp[0]:
                 fail(f"tree[{w.dkey(obj)}] returned a node, {len(exp)} carriers")
 
-    # clone queries per node
-    for c in order:
+    # clone queries per node (big trees: every 7th node, plus the first 50)
+    sample = order if len(order) <= 400 else order[:50] + order[50::7]
+    for c in sample:
         exp = by_did[c.data_id]
         got = c.get_clones()
         if not same_set(got, [x for x in exp if x is not c]):
